@@ -95,3 +95,8 @@ PROPS["C03"] = {"units": [
     rapid_unit("napt-in-package", "vnat", "^TestC03NAPT$", 10000, 16 * 200000, overlay="full"),
     rapid_unit("one-to-one", "vnat", "^TestC03OneToOne$", 5000, 16 * 50000, overlay="full"),
 ]}
+
+PROPS["C15"] = {"units": [
+    plain_unit("regress", "vfilter", "^TestRegressC15", overlay="full"),
+    rapid_unit("virtual-clock", "vfilter", "^TestC15TokenBucket$", 600, 16 * 5000, overlay="full"),
+]}
